@@ -74,15 +74,72 @@ theorem doerner_derive_one_adds_ok (skR skS a : F) (X : G) (h : (skR + skS) • 
   simp only [deriveShare, derivePublic, lawful_add, lawful_gadd, actBase_lawful]
   rw [← h, ← add_smul]; congr 1; ring
 
-/-- What `ConfigReceiver.Derive` and `ConfigSender.Derive` (doerner/keygen/keygen.go) compute: BOTH add
-    the tweak, the public key gets ONE tweak. The derived pair of configs is consistent
-    (sum of shares · g = public key) IFF a·g = 0 — in a prime-order group: iff the tweak is 0. -/
-theorem doerner_derive_consistent_iff (cR cS : DoernerCfg F G) (a : F) (ckR ckS : List UInt8)
+/-- **doerner_derive_is_sharing** (the code since 4df2a70: `ConfigReceiver.Derive` adds the tweak,
+    `ConfigSender.Derive` keeps its share, both add a·g to the public key and store the new chain key).
+    For ANY two halves of one key (shares skR, skS with (skR+skS)·g = X held by both), any tweak a and any
+    chain key ck: both derived configs hold the SAME public key X + a·g — the child key —, the derived
+    shares sum to sk + a and open that key, and both carry exactly the chain key ck. -/
+theorem doerner_derive_is_sharing (cR cS : DoernerCfg F G) (a : F) (ck : List UInt8)
     (hpub : cR.pub = cS.pub) (h : (cR.secretShare + cS.secretShare) • g = cR.pub) :
-    let dR := doernerDerive (lawful g : Ops F G) cR a ckR
-    let dS := doernerDerive (lawful g : Ops F G) cS a ckS
+    let dR := doernerDeriveReceiver (lawful g : Ops F G) cR a ck
+    let dS := doernerDeriveSender (lawful g : Ops F G) cS a ck
+    dR.pub = derivePublic (lawful g : Ops F G) cR.pub a ∧ dS.pub = dR.pub ∧
+    dR.secretShare + dS.secretShare = cR.secretShare + cS.secretShare + a ∧
+    (dR.secretShare + dS.secretShare) • g = dR.pub ∧
+    dR.chainKey = some ck ∧ dS.chainKey = some ck := by
+  intro dR dS
+  refine ⟨rfl, ?_, ?_, ?_, rfl, rfl⟩
+  · show cS.pub + a • g = cR.pub + a • g
+    rw [hpub]
+  · show cR.secretShare + a + cS.secretShare = _
+    ring
+  · show (cR.secretShare + a + cS.secretShare) • g = cR.pub + a • g
+    rw [← h, ← add_smul]; congr 1; ring
+
+/-- **doerner_derive_compose**: derivation paths of ANY length (induction over the list of steps, each a
+    tweak with the chain key of that step): the two halves stay one consistent additive sharing, of
+    sk + Σ tweaks under X + (Σ tweaks)·g, and both carry the chain key of the LAST step (the original one
+    for the empty path). -/
+theorem doerner_derive_compose (cR cS : DoernerCfg F G) (path : List (F × List UInt8))
+    (hpub : cR.pub = cS.pub) (h : (cR.secretShare + cS.secretShare) • g = cR.pub) (hck : cR.chainKey = cS.chainKey) :
+    let d := doernerDerivePath (lawful g : Ops F G) cR cS path
+    d.1.pub = cR.pub + (path.map Prod.fst).sum • g ∧ d.2.pub = d.1.pub ∧
+    d.1.secretShare + d.2.secretShare = cR.secretShare + cS.secretShare + (path.map Prod.fst).sum ∧
+    (d.1.secretShare + d.2.secretShare) • g = d.1.pub ∧
+    d.1.chainKey = d.2.chainKey ∧
+    d.1.chainKey = (match path.getLast? with | some step => some step.2 | none => cR.chainKey) := by
+  induction path generalizing cR cS with
+  | nil => simp [doernerDerivePath, hpub, h, hck]
+  | cons step rest ih =>
+    obtain ⟨h1, h2, h3, h4, h5, h6⟩ := doerner_derive_is_sharing g cR cS step.1 step.2 hpub h
+    have := ih (doernerDeriveReceiver (lawful g : Ops F G) cR step.1 step.2)
+      (doernerDeriveSender (lawful g : Ops F G) cS step.1 step.2) h2.symm h4 (h5.trans h6.symm)
+    simp only [doernerDerivePath, List.foldl_cons] at this ⊢
+    obtain ⟨i1, i2, i3, i4, i5, i6⟩ := this
+    refine ⟨?_, i2, ?_, i4, i5, ?_⟩
+    · rw [i1, h1]
+      simp only [derivePublic, lawful_gadd, actBase_lawful, List.map_cons, List.sum_cons, add_smul, add_assoc]
+    · rw [i3, h3]; simp only [List.map_cons, List.sum_cons]; ring
+    · rw [i6]
+      cases rest with
+      | nil => simp [h5]
+      | cons r rs =>
+        rw [List.getLast?_cons_cons]
+        cases hl : (r :: rs).getLast? with
+        | none => simp at hl
+        | some x => rfl
+
+/-! #### the behaviour before commit 4df2a70 (`doernerDeriveOld`), kept as witness of the defect -/
+
+/-- What `ConfigReceiver.Derive` and `ConfigSender.Derive` computed before the fix: BOTH added the tweak,
+    the public key got ONE tweak. The derived pair was consistent (sum of shares · g = public key) IFF
+    a·g = 0 — in a prime-order group: iff the tweak is 0. -/
+theorem doerner_derive_old_consistent_iff (cR cS : DoernerCfg F G) (a : F) (ckR ckS : List UInt8)
+    (hpub : cR.pub = cS.pub) (h : (cR.secretShare + cS.secretShare) • g = cR.pub) :
+    let dR := doernerDeriveOld (lawful g : Ops F G) cR a ckR
+    let dS := doernerDeriveOld (lawful g : Ops F G) cS a ckS
     (dR.pub = dS.pub) ∧ ((dR.secretShare + dS.secretShare) • g = dR.pub ↔ a • g = 0) := by
-  simp only [doernerDerive, lawful_add, lawful_gadd, actBase_lawful]
+  simp only [doernerDeriveOld, lawful_add, lawful_gadd, actBase_lawful]
   refine ⟨by rw [hpub], ?_⟩
   have e : (cR.secretShare + a + (cS.secretShare + a)) • g = cR.pub + a • g + a • g := by
     rw [← h, ← add_smul, ← add_smul]; congr 1; ring
@@ -91,36 +148,67 @@ theorem doerner_derive_consistent_iff (cR cS : DoernerCfg F G) (a : F) (ckR ckS 
   · intro h'; exact add_eq_left.mp h'
   · intro h'; rw [h', add_zero]
 
-theorem doerner_derive_wrong_of_ne (cR cS : DoernerCfg F G) (a : F) (ckR ckS : List UInt8)
+theorem doerner_derive_old_wrong_of_ne (cR cS : DoernerCfg F G) (a : F) (ckR ckS : List UInt8)
     (hg : g ≠ 0) (ha : a ≠ 0) (hpub : cR.pub = cS.pub) (h : (cR.secretShare + cS.secretShare) • g = cR.pub) :
-    ((doernerDerive (lawful g : Ops F G) cR a ckR).secretShare +
-      (doernerDerive (lawful g : Ops F G) cS a ckS).secretShare) • g ≠ (doernerDerive (lawful g : Ops F G) cR a ckR).pub := by
+    ((doernerDeriveOld (lawful g : Ops F G) cR a ckR).secretShare +
+      (doernerDeriveOld (lawful g : Ops F G) cS a ckS).secretShare) • g ≠ (doernerDeriveOld (lawful g : Ops F G) cR a ckR).pub := by
   intro e
-  have := ((doerner_derive_consistent_iff g cR cS a ckR ckS hpub h).2).mp e
+  have := ((doerner_derive_old_consistent_iff g cR cS a ckR ckS hpub h).2).mp e
   rcases smul_eq_zero_field this with h0 | h0
   · exact ha h0
   · exact hg h0
 
-/-- the derived configs carry NO chain key (the struct literal omits `ChainKey`), whatever was passed -/
-theorem doerner_derive_drops_chain_key (c : DoernerCfg F G) (a : F) (ck : List UInt8) :
-    (doernerDerive (lawful g : Ops F G) c a ck).chainKey = none := rfl
+/-- the configs derived by the old code carried NO chain key (the struct literal omitted `ChainKey`) -/
+theorem doerner_derive_old_drops_chain_key (c : DoernerCfg F G) (a : F) (ck : List UInt8) :
+    (doernerDeriveOld (lawful g : Ops F G) c a ck).chainKey = none := rfl
 
 instance : Fact (Nat.Prime 5) := ⟨by decide⟩
 
-/-- **doerner_derive_both_add_wrong** — concrete witness in the field with 5 elements (G = F, g = 1):
-    shares 1 and 2 (key 3), tweak 1. The code's `Derive` gives shares 2 and 3 — a sharing of 0 — and the
-    public key 4: the derived shares no longer match the derived public key, while the prescribed
-    child key IS 4 = 3 + 1. -/
+/-- **doerner_derive_both_add_wrong** — concrete witness in the field with 5 elements (G = F, g = 1) for the
+    OLD code: shares 1 and 2 (key 3), tweak 1. `doernerDeriveOld` gives shares 2 and 3 — a sharing of 0 — and
+    the public key 4: the derived shares do not match the derived public key, while the prescribed child key
+    IS 4 = 3 + 1. The code as it stands (`doernerDeriveReceiver`/`Sender`) gives shares 2 and 2: a sharing of 4. -/
 theorem doerner_derive_both_add_wrong :
     let O : Ops (ZMod 5) (ZMod 5) := lawful (1 : ZMod 5)
     let cR : DoernerCfg (ZMod 5) (ZMod 5) := ⟨1, 3, some []⟩
     let cS : DoernerCfg (ZMod 5) (ZMod 5) := ⟨2, 3, some []⟩
     actBase O (O.add cR.secretShare cS.secretShare) = cR.pub ∧
-    actBase O (O.add (doernerDerive O cR 1 []).secretShare (doernerDerive O cS 1 []).secretShare) = 0 ∧
-    (doernerDerive O cR 1 []).pub = 4 ∧
-    actBase O (O.add (doernerDerive O cR 1 []).secretShare (doernerDerive O cS 1 []).secretShare)
-      ≠ (doernerDerive O cR 1 []).pub := by
+    actBase O (O.add (doernerDeriveOld O cR 1 []).secretShare (doernerDeriveOld O cS 1 []).secretShare) = 0 ∧
+    (doernerDeriveOld O cR 1 []).pub = 4 ∧
+    actBase O (O.add (doernerDeriveOld O cR 1 []).secretShare (doernerDeriveOld O cS 1 []).secretShare)
+      ≠ (doernerDeriveOld O cR 1 []).pub ∧
+    actBase O (O.add (doernerDeriveReceiver O cR 1 []).secretShare (doernerDeriveSender O cS 1 []).secretShare)
+      = (doernerDeriveReceiver O cR 1 []).pub := by
   decide
+
+/-! ### chain keys -/
+
+/-- **chainkey_xor_agree**: the chain key `EmptyRID() ⊕ c₁ ⊕ … ⊕ cₙ` does not depend on the order in which a
+    party folds in the (decommitted, echo-protected) contributions: every party holding the same multiset of
+    contributions computes the same chain key — the value the FROST keygen result now carries. -/
+theorem chainkey_xor_agree (cs ds : List Bytes) (h : cs.Perm ds) :
+    chainKeyOf cs = chainKeyOf ds ∧ frostResultChainKey cs = frostResultChainKey ds ∧
+      frostResultChainKey cs = some (chainKeyOf cs) := by
+  have hk := chainKeyOf_perm cs ds h
+  exact ⟨hk, by unfold frostResultChainKey; rw [hk], rfl⟩
+
+/-- the result of a chain-key XOR over 32-byte contributions is 32 bytes long (what `Derive` insists on) -/
+theorem chainkey_length (cs : List Bytes) (h : ∀ c ∈ cs, c.length = 32) : (chainKeyOf cs).length = 32 :=
+  chainKeyOf_length cs h
+
+/-- before eba3819 the FROST keygen result carried no chain key, whatever was contributed -/
+theorem frost_chainkey_old_dropped (cs : List Bytes) : frostResultChainKeyOld cs = none := rfl
+
+/-- the chain-key rule of every `Derive`: an explicit 32-byte chain key is taken as is; with none given the
+    old one is kept (and must be 32 bytes long) -/
+theorem derive_chain_rule (old : Option Bytes) (new : Bytes) (hnew : new.length = 32) :
+    deriveChainRule old (some new) = some new ∧
+    (∀ o : Bytes, o.length = 32 → deriveChainRule (some o) none = some o ∧ deriveChainRule (some o) (some []) = some o) ∧
+    deriveChainRule none none = none := by
+  refine ⟨?_, ?_, ?_⟩
+  · simp [deriveChainRule, hnew]
+  · intro o ho; simp [deriveChainRule, ho]
+  · simp [deriveChainRule]
 
 /-! ### non-vacuity -/
 example : Nodes (F := ℚ) [0, 1, 2] (fun i : ℕ => (i : ℚ) + 1) ∧ ([0, 1, 2] : List ℕ) ≠ [] := by
